@@ -31,6 +31,27 @@ def profile(tier):
     }
 
 
+def profile_retarget(tier):
+    """Local modulated channels with a custom phase-jump time below twice the rise time:
+    pulse, short delays, retarget - the retarget must still wait for the ramp-down."""
+    def force(d):
+        import copy
+
+        d = copy.deepcopy(d)
+        for i, c in enumerate(d["channels"]):
+            c["custom_phase_jump_time"] = [0, 20, 40, 0][i % 4]
+        return d
+
+    p = profile(tier)
+    return dict(p, fault_pct=0, min_ops=6, max_ops=24,
+                weights={"declare": 6, "declare_more": 1, "add": 9, "align": 0, "delay": 9,
+                         "phase_shift": 1, "target": 9, "eom": 0},
+                device=gen.device_specs(n_channels=(1, 2), allow_builtin=False, allow_dmm=False,
+                                        chan_kw={"addr": "Local", "eom": False,
+                                                 "bandwidth": [2, 4, 8]}).map(force),
+                register=gen.register_specs(n=(2, 4)))
+
+
 def check(case, ctx: Ctx):
     w = history.Walker(case, ctx, {"C10"}).run()
     st_ = w.stats
@@ -45,6 +66,9 @@ def check(case, ctx: Ctx):
 
 CLAUSES = [
     Clause("timing", check, gen=lambda t: gen.programs(profile(t)),
-           budget={"quick": (16, 200), "thorough": (16, 6000)},
+           budget={"quick": (16, 200), "thorough": (16, 3000)},
            doc="C10.phase_jump and C10.retarget per step"),
+    Clause("retarget_after_delays", check, gen=lambda t: gen.programs(profile_retarget(t)),
+           budget={"quick": (8, 120), "thorough": (16, 3000)},
+           doc="local modulated channels with short custom phase-jump times: pulse, delays, retarget"),
 ]
